@@ -134,6 +134,10 @@ static const std::vector<std::pair<std::string, std::string>>& repl_menu()
     {"NA", "NA"}, {"x", "text"}, {"-0.0", "zero"}, {"1.5", "float"}, {"", "deleted"}};
   return v;
 }
+// long words (echoed by error messages into fixed buffers): every length, every token position, loaders run with verbose = true
+static const std::vector<int>& long_menu() { static const std::vector<int> v = {900, 998, 999, 1000, 1001, 1100, 2000, 5000}; return v; }
+// structured faults of a name token: last character removed, trailing digit replaced by 0 and by 99 ("Drift:x1" -> "Drift:x", "Drift:x0", "Drift:x99")
+static const std::vector<std::string>& name_menu() { static const std::vector<std::string> v = {"chopped", "digit0", "digit99"}; return v; }
 static const std::vector<std::string>& pair_menu() { static const std::vector<std::string> v = {"0", "2", "2000000000"}; return v; }   // second token of a pair
 // first token of a pair: the whole "huge" set
 static const std::vector<std::string>& pair_menu1() { static const std::vector<std::string> v = {"-1", "0", "2", "NA", "1000000000", "1073741824", "1431655766", "2000000000", "2147483647"}; return v; }
@@ -155,10 +159,12 @@ struct Plan
 {
   const Parsed* P;
   bool thorough;
-  size_t nPrefix, nGarbage, nTok, nLine, nPair;
+  size_t nPrefix, nGarbage, nTok, nLine, nPair, nLong, nName;
   std::vector<int> intToks;
-  Plan(const Parsed& p, bool th, bool garbage = true) : P(&p), thorough(th)
+  Plan(const Parsed& p, bool th, bool garbage = true, bool longtok = true) : P(&p), thorough(th)
   {
+    nLong = longtok ? p.toks.size() * long_menu().size() : 0;
+    nName = longtok ? p.toks.size() * name_menu().size() : 0;
     nPrefix = p.text.size();                     // k = 0 .. size-1
     nGarbage = th && garbage ? p.text.size() : 0;
     nTok = p.toks.size() * repl_menu().size();
@@ -166,7 +172,7 @@ struct Plan
     for (size_t i = 0; i < p.toks.size() && intToks.size() < 8; i++) if (p.toks[i].isInt && p.toks[i].title != "class_tag") intToks.push_back((int)i);
     nPair = th ? intToks.size() * (intToks.size() - (intToks.empty() ? 0 : 1)) / 2 * pair_menu1().size() * pair_menu().size() : 0;
   }
-  size_t size() const { return nPrefix + nGarbage + nTok + nLine + nPair; }
+  size_t size() const { return nPrefix + nGarbage + nTok + nLine + nPair + nLong + nName; }
   static std::string replace(const std::string& t, size_t b, size_t e, const std::string& r) { return t.substr(0, b) + r + t.substr(e); }
   std::string titleAt(size_t bytepos) const
   {
@@ -227,6 +233,34 @@ struct Plan
       return true;
     }
     i -= nLine;
+    if (i >= nPair)
+    {
+      i -= nPair;
+      if (i < nLong)
+      {
+        const Tok& k = P->toks[i / long_menu().size()];
+        int len = long_menu()[i % long_menu().size()];
+        std::string orig = t.substr(k.beg, k.end - k.beg);
+        m = {"token-long", k.title, replace(t, k.beg, k.end, std::string((size_t)len, 'Z')), "token '" + orig + "' (line " + std::to_string(k.line + 1) + ") replaced by a word of " + std::to_string(len) + " letters 'Z' (loader verbose)", token_class(orig) + "=long"};
+        return true;
+      }
+      i -= nLong;
+      const Tok& k = P->toks[i / name_menu().size()];
+      int op = (int)(i % name_menu().size());
+      std::string orig = t.substr(k.beg, k.end - k.beg);
+      if (token_class(orig) != "name-token" || k.title == "class_tag") return false;
+      std::string r = orig;
+      if (op == 0) { if (r.size() < 2) return false; r.pop_back(); }
+      else
+      {
+        size_t e = r.size(); while (e > 0 && isdigit((unsigned char)r[e - 1])) e--;
+        if (e == r.size()) return false;                      // no trailing digit
+        r = r.substr(0, e) + (op == 1 ? "0" : "99");
+      }
+      if (r == orig) return false;
+      m = {"token-name-" + name_menu()[op], k.title, replace(t, k.beg, k.end, r), "token '" + orig + "' (line " + std::to_string(k.line + 1) + ") replaced by '" + r + "'", "name-token=" + name_menu()[op]};
+      return true;
+    }
     size_t mm = pair_menu().size(), per = pair_menu1().size() * mm, pr = i / per, rr = i % per, a = 0, b = 1;
     // decode pair index
     for (size_t q = 0; q < pr; q++) { b++; if (b >= intToks.size()) { a++; b = a + 1; } }
@@ -278,7 +312,7 @@ static int run_nf(const ClassDef& def, bool viaFile, const std::string& content,
     std::string type;
     is >> type;
     if (type != nf_tag(o.get()) || !is.good()) o.reset();
-    else if (!o->deserialize(is, false)) o.reset();
+    else if (!o->deserialize(is, nf_verbose())) o.reset();
   }
   if (!o) { say(wfd, "R fail-clean"); return 0; }
   say(wfd, "R ok-object");
@@ -495,11 +529,13 @@ static void fault_run(Ctx& C, const std::string& cls, const std::string& textId,
     Mut m;
     if (!make(i, m)) { C.skip(); continue; }
     C.cur_case = g_tl + std::to_string(myid);
+    nf_verbose() = m.kind == "token-long";      // long words: loaders run verbose (the library default), the error messages echo the word
     Outcome o = run_one([&](int wfd) { return loader(m.content, wfd); });
+    nf_verbose() = false;
     // A 10 kB column/variable name makes std::regex (name matching inside the library) overflow the stack when the object is
     // displayed or saved; an object built through the API with such a name does exactly the same, so this says nothing about
     // the loader: excluded and counted.
-    if (m.kind == "token-longtoken" && m.fk.rfind("name-token", 0) == 0 && o.result == "ok-object" && o.stage != "load" && outcome_class(o.signature) == "memory-error")
+    if ((m.kind == "token-longtoken" || m.kind == "token-long") && m.fk.rfind("name-token", 0) == 0 && o.result == "ok-object" && o.stage != "load" && outcome_class(o.signature) == "memory-error")
     { C.skip(); C.outcome("excluded: std::regex stack overflow on a 10 kB name (stage " + o.stage + ")"); continue; }
     C.eval();
     // timing sensitivity: a case is charged for CPU above 2 s (hard limit 3 s). Cases that END ON THEIR OWN between 0.5 s and 3 s
@@ -538,10 +574,10 @@ static void fault_run(Ctx& C, const std::string& cls, const std::string& textId,
   }
 }
 static void fault_text(Ctx& C, const std::string& cls, const std::string& textId, const std::string& text, bool hasTag,
-                       const std::function<int(const std::string&, int)>& loader, size_t& counter, bool garbage = true)
+                       const std::function<int(const std::string&, int)>& loader, size_t& counter, bool garbage = true, bool longtok = true)
 {
   Parsed P = parse_text(text, hasTag);
-  Plan plan(P, C.thorough(), garbage);
+  Plan plan(P, C.thorough(), garbage, longtok);
   fault_run(C, cls, textId, text, plan.size(), [&](size_t i, Mut& m) { return plan.make(i, m); }, loader, counter, false);
 }
 
@@ -618,7 +654,7 @@ static void fault_class(Ctx& C, const std::string& cname)
     if (text.empty()) { C.note(cname + ": corpus text " + std::to_string(it) + " could not be produced"); continue; }
     std::string tid = cname + "#" + std::to_string(it);
     // stream mode (bulk) for every class; file mode through createFromNF when the class has one
-    fault_text(C, cname, tid + "(stream)", text, true, [&](const std::string& c, int wfd) { return run_nf(*def, false, c, wfd); }, counter);
+    fault_text(C, cname, tid + "(stream)", text, true, [&](const std::string& c, int wfd) { return run_nf(*def, false, c, wfd); }, counter, true, !(def->fromNF && (C.thorough() || it == 0)));
     if (def->fromNF && (C.thorough() || it == 0))
       fault_text(C, cname, tid + "(file)", text, true, [&](const std::string& c, int wfd) { return run_nf(*def, true, c, wfd); }, counter, false);   // garbage-completed prefixes: stream driver only
   }
@@ -662,7 +698,7 @@ static int run_csv(const std::string& content, int wfd, bool header, char sep, c
   std::string path = scratch_path("c09.csv");
   write_file(path, content);
   CSVformat fmt(header, 0, sep, '.', na);
-  std::unique_ptr<Db> db(Db::createFromCSV(path, fmt, false));
+  std::unique_ptr<Db> db(Db::createFromCSV(path, fmt, nf_verbose()));
   unlink(path.c_str());
   if (!db) { say(wfd, "R fail-clean"); return 0; }
   db_use(db.get(), wfd);
@@ -815,7 +851,7 @@ static int run_polycsv(const std::string& content, int wfd, bool wkt)
   std::string path = scratch_path("c09poly.csv");
   write_file(path, content);
   CSVformat fmt(true, 0, ',', '.', "NA");
-  std::unique_ptr<Polygons> p(wkt ? Polygons::createFromWKT(path, fmt, false) : Polygons::createFromCSV(path, fmt, false));
+  std::unique_ptr<Polygons> p(wkt ? Polygons::createFromWKT(path, fmt, nf_verbose()) : Polygons::createFromCSV(path, fmt, nf_verbose()));
   unlink(path.c_str());
   if (!p) { say(wfd, "R fail-clean"); return 0; }
   say(wfd, "R ok-object");
